@@ -1,12 +1,23 @@
 #!/usr/bin/env python3
 """(G) tie for C05: re-emit lean/CamVerif/Gen/FormulaTables.lean from the CURRENT
 genapi/src/formula.rs: the precedence ladder (one row per `parse_binop!` call, in call-chain
-order from `Parser::expr` down to `unop`), the function-name table of `Parser::primary`, the
-constant names of `next_float`, and shape checks (token skeleton, locals alpha-normalised) of
-the `parse_binop!` macro and of `parse`, `expr`, `unop`, `pow`, `primary`, `eat`, `expect`,
-`next_integer`, `next_float`, `next_ident` — the parser functions the hand-written model
-mirrors.  The lexer and `Expr::eval` are NOT read by this generator (differential only).  Fails loudly (exit 2, Gen file replaced by
-one that does not elaborate) when a construct it relies on is not found."""
+order from `Parser::expr` down to `unop`), the function-name table used by `Parser::primary`
+and the constant names used by `next_float` (each either inline or in a private helper
+function of the same file called at that position with the identifier string), and shape
+checks of the `parse_binop!` macro and of `parse`, `expr`, `unop`, `pow`, `primary`, `eat`,
+`expect`, `next_integer`, `next_float`, `next_ident` — the parser functions the hand-written
+model mirrors.  The lexer and `Expr::eval` are NOT read by this generator (differential only).
+
+Shapes are compared on a NORMALISED TOKEN SKELETON so that behaviour-preserving edits do not
+refuse: comments and logging macros dropped, string literals blanked, trailing commas dropped,
+`Box::new(x)` = `x.into()`, `.expect("..")` = `.unwrap()`, assertion messages dropped,
+`if !c { panic!(..) }` = `assert!(c)`, field-init shorthand expanded, a `match` on
+`self.lexer.peek()` without guards = the `if let … else if let … else` chain, a final
+`return x;` = `x`, `.clone()/.to_owned()` = `.to_string()` on the identifier text, and every
+bound local (let / if-let / match-arm pattern) renamed positionally.
+
+Fails loudly (exit 2, Gen file replaced by one that does not elaborate, line
+GENERATOR-SHAPE-CHECK-ONLY) when a construct it relies on is not found."""
 import hashlib, os, re, sys
 REPO = os.environ.get("VERIF_REPO", "/repo")
 SRC = os.path.join(REPO, "genapi/src/formula.rs")
@@ -15,7 +26,7 @@ src = open(SRC).read()
 
 def die(msg):
     open(OUT, "w").write("/- GENERATED: tools/gen_formula_tables.py could not translate genapi/src/formula.rs:\n   %s -/\n"
-                         "theorem CamVerif.Gen.FormulaTables.generator_refused : False := by decide\n" % msg)
+                         "theorem CamVerif.Gen.FormulaTables.generator_refused : False := by decide\n" % msg.replace("-/", "- /"))
     print("gen_formula_tables: REFUSED — generator shape check only: the source no longer has a shape this generator "
           "recognises; this by itself does not say the behaviour changed (the correspondence run decides): " + msg, file=sys.stderr)
     print("GENERATOR-SHAPE-CHECK-ONLY C05 " + msg)
@@ -28,66 +39,321 @@ BINOPS = {"Add", "Sub", "Mul", "Div", "Rem", "Pow", "Shl", "Shr", "And", "Or", "
           "BitAnd", "BitOr", "Xor"}
 UNOPS = {"Not", "Abs", "Sgn", "Neg", "Sin", "Cos", "Tan", "Asin", "Acos", "Atan", "Exp", "Ln", "Lg", "Sqrt", "Trunc",
          "Floor", "Ceil", "Round"}
+
 # ---------------------------------------------------------------------------------------------
-# Shape comparison on a TOKEN SKELETON: comments dropped, string literals blanked, trailing commas
-# dropped, `Box::new(x)` read as `x.into()`, and every `let`-bound local renamed positionally
-# (`_v1`, `_v2`, …), so that renaming a local, reformatting or commenting does not refuse.
+# Tokens
 # ---------------------------------------------------------------------------------------------
-TOK = re.compile(r'[A-Za-z_]\w*|\d+|"S"|::|=>|->|&&|\|\||==|!=|<=|>=|[^\s\w]')
-def skeleton(code):
-    code = re.sub(r"/\*.*?\*/", " ", code, flags=re.S)
-    code = re.sub(r"//[^\n]*", " ", code)
-    code = re.sub(r'"(?:[^"\\]|\\.)*"', '"S"', code)
-    code = re.sub(r"Box::new\((\w+)\)", r"\1.into()", code)
-    toks = TOK.findall(code)
-    toks = [t for k, t in enumerate(toks) if not (t == "," and k + 1 < len(toks) and toks[k + 1] in ("}", ")"))]
-    # binders: identifiers in a `let` pattern (between `let` and `=`/`:`) that are plain names;
-    # every binding occurrence gets a fresh positional name, later uses refer to the latest one
-    cur, count, out, k = {}, 0, [], 0
-    in_pat = False
-    while k < len(toks):
+TOKRE = re.compile(r'''"(?:[^"\\]|\\.)*"|'(?:\\.|[^\\'])'|/\*.*?\*/|//[^\n]*|[A-Za-z_]\w*|\d\w*|'\w+|::|=>|->|&&|\|\||==|!=|<=|>=|\.\.|[^\s\w]''', re.S)
+def tokenize(code):
+    return [t for t in TOKRE.findall(code) if not (t.startswith("//") or t.startswith("/*"))]
+OPEN, CLOSE = {"(": ")", "[": "]", "{": "}"}, {")", "]", "}"}
+def close_of(toks, i):
+    """index of the bracket closing the one at i"""
+    d = 0
+    for k in range(i, len(toks)):
+        if toks[k] in OPEN: d += 1
+        elif toks[k] in CLOSE:
+            d -= 1
+            if d == 0: return k
+    die("unbalanced brackets")
+def find0(toks, i, stop, targets):
+    """first index in [i, stop) at bracket depth 0 holding one of `targets`, else -1"""
+    d = 0
+    for k in range(i, stop):
         t = toks[k]
+        if d == 0 and t in targets: return k
+        if t in OPEN: d += 1
+        elif t in CLOSE: d -= 1
+    return -1
+
+ALL = tokenize(src)
+try:
+    _i = next(i for i in range(len(ALL) - 1) if ALL[i] == "impl" and ALL[i + 1] == "Parser")
+    _b = ALL.index("{", _i)
+    PARSER = (_b, close_of(ALL, _b))          # token range of `impl Parser { … }`
+except StopIteration:
+    die("impl Parser not found")
+def find_fn(name, must=True, scope=None):
+    """(parameter tokens, body tokens) of `fn name` (inside the token range `scope`, default: whole file)"""
+    lo, hi = scope or (0, len(ALL))
+    for k in range(lo, hi - 2):
+        if ALL[k] == "fn" and ALL[k + 1] == name:
+            p = k + 2
+            if ALL[p] == "<": p = ALL.index(">", p) + 1
+            if ALL[p] != "(": continue
+            pe = close_of(ALL, p)
+            b = pe + 1
+            while ALL[b] != "{":
+                if ALL[b] == ";": break
+                b += 1
+            if ALL[b] != "{": continue
+            be = close_of(ALL, b)
+            return ALL[p + 1:pe], ALL[b + 1:be]
+    if must: die("fn %s not found" % name)
+    return None
+def all_fns(scope=None):
+    lo, hi = scope or (0, len(ALL))
+    return [ALL[k + 1] for k in range(lo, hi - 1) if ALL[k] == "fn" and re.fullmatch(r"[a-z_]\w*", ALL[k + 1])]
+def method(name):
+    return find_fn(name, scope=PARSER)
+def param_names(params):
+    out, k = [], 0
+    while k < len(params):
+        c = find0(params, k, len(params), {","})
+        c = len(params) if c < 0 else c
+        p = params[k:c]
+        if ":" in p and "self" not in p[:p.index(":")]:
+            out += [t for t in p[:p.index(":")] if re.fullmatch(r"[a-z_]\w*", t) and t != "mut"]
+        k = c + 1
+    return out
+
+# ---------------------------------------------------------------------------------------------
+# match arms
+# ---------------------------------------------------------------------------------------------
+def match_at(toks, i):
+    """toks[i] == 'match' → (scrutinee, arms, end) ; arms = [(pattern, guard or None, body)] ; toks[end] is the closing brace"""
+    b = find0(toks, i + 1, len(toks), {"{"})
+    e = close_of(toks, b)
+    arms, k = [], b + 1
+    while k < e:
+        a = find0(toks, k, e, {"=>"})
+        if a < 0: die("match arm without `=>`")
+        g = find0(toks, k, a, {"if"})
+        pat, guard = (toks[k:g], toks[g + 1:a]) if g >= 0 else (toks[k:a], None)
+        if toks[a + 1] == "{":
+            be = close_of(toks, a + 1)
+            body, k = toks[a + 2:be], be + 1
+            if k < e and toks[k] == ",": k += 1
+        else:
+            c = find0(toks, a + 1, e, {","})
+            c = e if c < 0 else c
+            body, k = toks[a + 1:c], c + 1
+        arms.append((pat, guard, body))
+    return toks[i + 1:b], arms, e
+
+def ident_arg(ts):
+    """`s`, `&s`, `s.as_str()`, `&*s`, `s.as_ref()`, `&s[..]` → `s`"""
+    ts = [t for t in ts if t not in ("&", "*")]
+    if len(ts) >= 1 and re.fullmatch(r"[a-z_]\w*", ts[0]) and ts[1:] in ([], [".", "as_str", "(", ")"], [".", "as_ref", "(", ")"], ["[", "..", "]"]):
+        return ts[0]
+    return None
+
+def string_match(toks):
+    """index of the first `match` whose first arm pattern is a string literal, else -1"""
+    for k, t in enumerate(toks):
+        if t == "match":
+            _, arms, _ = match_at(toks, k)
+            if arms and arms[0][0] and arms[0][0][0].startswith('"'): return k
+    return -1
+
+def read_table(arms, what):
+    """arms of a name table → ([(name, value tokens)], catch-all body tokens)"""
+    rows, catch = [], None
+    for n, (pat, guard, body) in enumerate(arms):
+        if guard is not None: die("%s: guarded arm" % what)
+        if all(t.startswith('"') or t == "|" for t in pat) and pat:
+            if catch is not None: die("%s: arm after the catch-all arm" % what)
+            for t in pat:
+                if t != "|": rows.append((t[1:-1], body))
+        elif len(pat) == 1 and re.fullmatch(r"_|[a-z_]\w*", pat[0]) and n == len(arms) - 1:
+            catch = body
+        else:
+            die("%s: arm pattern `%s` of unknown shape" % (what, " ".join(pat)))
+    if catch is None: die("%s: no catch-all arm" % what)
+    return rows, catch
+
+def cut_table(toks, what, helper_suffix):
+    """Replace the name table in `toks` — an inline `match <ident string> { "A" => …, … }` or a call
+    `helper(<ident string>)` (+ `helper_suffix`, e.g. `?`) of a function of this file whose body is
+    exactly such a match on its parameter — by `TABLE ( ident )`.  Returns (tokens, rows, catch-all, via)."""
+    k = string_match(toks)
+    if k >= 0:
+        scrut, arms, e = match_at(toks, k)
+        var = ident_arg(scrut)
+        if var is None: die("%s: the table is not matched on the identifier text (`%s`)" % (what, " ".join(scrut)))
+        rows, catch = read_table(arms, what)
+        return toks[:k] + ["TABLE", "(", var, ")"] + toks[e + 1:], rows, catch, "inline"
+    fns = set(all_fns())
+    why = []
+    for k in range(len(toks) - 1):
+        if toks[k] in fns and toks[k + 1] == "(" and (k == 0 or toks[k - 1] != "fn"):
+            params, body = find_fn(toks[k])
+            if string_match(body) < 0: continue
+            # the helper: one string parameter, the body is the match on it (optionally `return …;`)
+            ps = [p for p in " ".join(params).replace("& self ,", "").replace("& mut self ,", "").split(",") if p.strip()]
+            if len(ps) != 1:
+                why.append("`%s` takes %d parameters" % (toks[k], len(ps))); continue
+            pname = ps[0].split(":")[0].strip()
+            b = list(body)
+            if b and b[0] == "return": b = b[1:]
+            if b and b[-1] == ";": b = b[:-1]
+            if not b or b[0] != "match":
+                why.append("`%s` is not a single match" % toks[k]); continue
+            scrut, arms, e = match_at(b, 0)
+            if e != len(b) - 1 or ident_arg(scrut) != pname:
+                why.append("`%s` is not a single match on its parameter" % toks[k]); continue
+            ce = close_of(toks, k + 1)
+            var = ident_arg(toks[k + 2:ce])
+            if var is None: die("%s: helper `%s` is not called with the identifier text" % (what, toks[k]))
+            start = k
+            if k >= 2 and toks[k - 1] in (".", "::") and toks[k - 2] in ("self", "Self"): start = k - 2
+            end = ce + 1
+            if toks[end:end + len(helper_suffix)] != helper_suffix:
+                die("%s: the result of helper `%s` is not used as `%s(..)%s`" % (what, toks[k], toks[k], "".join(helper_suffix)))
+            end += len(helper_suffix)
+            rows, catch = read_table(arms, what)
+            return toks[:start] + ["TABLE", "(", var, ")"] + toks[end:], rows, catch, "helper " + toks[k]
+    die("%s: no name table found (neither an inline match on string literals nor a call of a helper that is a single match "
+        "on string literals%s)" % (what, "; candidates: " + ", ".join(why) if why else ""))
+
+# ---------------------------------------------------------------------------------------------
+# Normalisation
+# ---------------------------------------------------------------------------------------------
+LOG = {"debug", "trace", "info", "warn", "error"}
+PANICS = {"panic", "unreachable", "unimplemented", "todo"}
+def normalise(toks, params=()):
+    toks = list(toks)
+    # logging statements have no effect
+    k = 0
+    while k < len(toks):
+        if toks[k] in LOG and toks[k + 1:k + 3] == ["!", "("]:
+            s = k
+            while s >= 2 and toks[s - 1] == "::": s -= 2
+            e = close_of(toks, k + 2)
+            if e + 1 < len(toks) and toks[e + 1] == ";": e += 1
+            toks[s:e + 1] = []
+            k = s
+        else: k += 1
+    # Box::new(x) = x.into() ; .expect("..") = .unwrap() ; .clone() / .to_owned() = .to_string()
+    k = 0
+    while k < len(toks):
+        if toks[k:k + 4] == ["Box", "::", "new", "("] and close_of(toks, k + 3) == k + 5:
+            toks[k:k + 6] = [toks[k + 4], ".", "into", "(", ")"]
+        elif toks[k:k + 3] == [".", "expect", "("]:
+            toks[k:close_of(toks, k + 2) + 1] = [".", "unwrap", "(", ")"]
+        elif toks[k:k + 4] in ([".", "clone", "(", ")"], [".", "to_owned", "(", ")"]):
+            toks[k + 1] = "to_string"
+        k += 1
+    # assert!(c, msg…) = assert!(c) ; if !c { panic!(..) } = assert!(c)
+    k = 0
+    while k < len(toks):
+        if toks[k:k + 3] == ["assert", "!", "("]:
+            e = close_of(toks, k + 2)
+            c = find0(toks, k + 3, e, {","})
+            if c >= 0: toks[c:e] = []
+        elif toks[k:k + 2] == ["if", "!"]:
+            b = find0(toks, k + 2, len(toks), {"{"})
+            e = close_of(toks, b)
+            inner = toks[b + 1:e]
+            if inner and inner[0] in PANICS and inner[1:3] == ["!", "("] and close_of(inner, 2) >= len(inner) - 2 \
+                    and (e + 1 >= len(toks) or toks[e + 1] != "else"):
+                toks[k:e + 1] = ["assert", "!", "("] + toks[k + 2:b] + [")", ";"]
+        k += 1
+    # field-init shorthand: `T { a, b: x }` = `T { a: a, b: x }`
+    k = 0
+    while k < len(toks):
+        if toks[k] == "{" and k and re.fullmatch(r"[A-Z]\w*", toks[k - 1]) and not (k >= 2 and toks[k - 2] in ("struct", "enum", "impl", "for", "trait")):
+            e = close_of(toks, k)
+            out, f = [], k + 1
+            while f < e:
+                c = find0(toks, f, e, {","})
+                c = e if c < 0 else c
+                field = toks[f:c]
+                if len(field) == 1 and re.fullmatch(r"[a-z_]\w*", field[0]): field = [field[0], ":", field[0]]
+                out += field + ([","] if c < e else [])
+                f = c + 1
+            toks[k + 1:e] = out
+        k += 1
+    # a match on the peeked token without guards = the if-let chain
+    k = 0
+    while k < len(toks):
+        if toks[k] == "match":
+            scrut, arms, e = match_at(toks, k)
+            last = arms[-1] if arms else None
+            if scrut == ["self", ".", "lexer", ".", "peek", "(", ")"] and len(arms) >= 2 and all(a[1] is None for a in arms) \
+                    and last[0] in (["_"], ["None"]):
+                out = []
+                for n, (pat, _, body) in enumerate(arms[:-1]):
+                    out += (["else"] if n else []) + ["if", "let"] + pat + ["="] + scrut + ["{"] + body + ["}"]
+                out += ["else", "{"] + last[2] + ["}"]
+                toks[k:e + 1] = out
+                continue
+        k += 1
+    # trailing commas, a final `return x;`, a final `;`
+    toks = [t for k, t in enumerate(toks) if not (t == "," and k + 1 < len(toks) and toks[k + 1] in ("}", ")", "]"))]
+    if toks and toks[-1] == ";": toks = toks[:-1]
+    r = len(toks) - 1
+    d = 0
+    while r >= 0:                       # start of the last statement
+        if toks[r] in CLOSE: d += 1
+        elif toks[r] in OPEN: d -= 1
+        elif toks[r] == ";" and d == 0: break
+        r -= 1
+    if toks[r + 1:r + 2] == ["return"]: del toks[r + 1]
+    # binders: let / if-let patterns and match-arm patterns; fresh positional name per occurrence
+    binder = set()
+    def pattern(a, b):
+        for k in range(a, b):
+            t, nxt, prev = toks[k], toks[k + 1] if k + 1 < len(toks) else "", toks[k - 1] if k else ""
+            if re.fullmatch(r"[a-z_]\w*", t) and t not in ("mut", "ref", "self", "_") and nxt not in ("::", "(", "{", "!") and prev != "::":
+                binder.add(k)
+    for k, t in enumerate(toks):
+        if t == "let":
+            e = find0(toks, k + 1, len(toks), {"=", ":", ";"})
+            pattern(k + 1, e if e >= 0 else len(toks))
+        elif t == "match":
+            b = find0(toks, k + 1, len(toks), {"{"})
+            e = close_of(toks, b)
+            p = b + 1
+            while p < e:
+                a = find0(toks, p, e, {"=>"})
+                if a < 0: break
+                g = find0(toks, p, a, {"if"})
+                pattern(p, g if g >= 0 else a)
+                if toks[a + 1] == "{": p = close_of(toks, a + 1) + 1
+                else:
+                    c = find0(toks, a + 1, e, {","})
+                    p = (e if c < 0 else c)
+                if p < e and toks[p] == ",": p += 1
+    cur, count, out = {p: "_p%d" % (n + 1) for n, p in enumerate(params)}, 0, []
+    for k, t in enumerate(toks):
         prev = toks[k - 1] if k else ""
         nxt = toks[k + 1] if k + 1 < len(toks) else ""
-        if t == "let":
-            in_pat = True
-            out.append(t)
-        elif in_pat and t in ("=", ":"):
-            in_pat = False
-            out.append(t)
-        elif in_pat and re.fullmatch(r"[a-z_]\w*", t) and t not in ("mut", "ref", "self") and nxt not in ("::", "("):
+        if k in binder:
             count += 1
             cur[t] = "_v%d" % count
             out.append(cur[t])
+        elif t in cur and prev not in (".", "$", "::") and not (nxt == ":" and prev in ("{", ",")):
+            out.append(cur[t])
         else:
-            label = nxt == ":" and prev in ("{", ",")            # struct field label
-            if t in cur and prev not in (".", "$") and not label:
-                out.append(cur[t])
-            else:
-                out.append(t)
-        k += 1
+            out.append('"S"' if t.startswith('"') else t)
     return out
 
-def check_shape(what, got_code, want_code, mirrors):
-    g, w = skeleton(got_code), skeleton(want_code)
-    if g != w:
+def check_shape(what, got, wants, mirrors, params=()):
+    """`got`: (parameter tokens, body tokens) or body tokens ; `wants`: source snippets of the accepted
+    (equivalent) shapes, written with the parameter names `params`"""
+    if isinstance(got, tuple):
+        names = param_names(got[0])
+        if len(names) != len(params): die("%s takes %d parameters, expected %d" % (what, len(names), len(params)))
+        g = normalise(got[1], names)
+    else:
+        g = normalise(got)
+    best = None
+    for want in wants if isinstance(wants, list) else [wants]:
+        w = normalise(tokenize(want), params)
+        if g == w: return
         k = next((i for i, (a, b) in enumerate(zip(g, w)) if a != b), min(len(g), len(w)))
-        die("%s no longer has the shape the model's %s mirrors (token %d: found `%s`, expected `%s`)"
-            % (what, mirrors, k, " ".join(g[k:k + 6]), " ".join(w[k:k + 6])))
-
-def fn_body(name):
-    m = re.search(r"\n    fn %s\(&mut self[^)]*\)(?: -> [^{]+)? \{\n(.*?)\n    \}\n" % name, src, re.S)
-    if not m: die("fn %s not found" % name)
-    return m.group(1)
-
-def cut_table(code):
-    """the name tables are extracted separately: blank the `match s.as_str() { … }` block"""
-    return re.sub(r"match s\.as_str\(\) \{.*?\n\s*\};", "TABLE;", code, flags=re.S)
+        if best is None or k > best[0]: best = (k, w)
+    k, w = best
+    die("%s no longer has the shape the model's %s mirrors (token %d: found `%s`, expected `%s`)"
+        % (what, mirrors, k, " ".join(g[k:k + 6]), " ".join(w[k:k + 6])))
 
 # --- the macro: first operand, then a loop that folds to the left -------------------------
-m = re.search(r"macro_rules! parse_binop \{(.*?)\n\}\n", src, re.S)
-if not m: die("macro parse_binop!")
-check_shape("parse_binop!", m.group(1), """
+try:
+    k = next(i for i in range(len(ALL) - 3) if ALL[i:i + 3] == ["macro_rules", "!", "parse_binop"])
+except StopIteration:
+    die("macro parse_binop!")
+check_shape("parse_binop!", ALL[k + 4:close_of(ALL, k + 3)], """
     ($self:ident.$f:ident, ($token:expr, $op:expr) $(,($token_rep:expr, $op_rep:expr))*) => { {
         let mut expr = $self.$f();
         loop {
@@ -98,18 +364,30 @@ check_shape("parse_binop!", m.group(1), """
         expr
     } }""", "binLevel/binLoop")
 
-# --- the ladder ---------------------------------------------------------------------------
+# --- the ladder: every fn whose body is exactly one parse_binop! call -----------------------
 rows = {}
-for m in re.finditer(r"\n    fn (\w+)\(&mut self\) -> Expr \{\s*parse_binop!\(\s*self\.(\w+),((?:\s*\(Token::\w+, BinOpKind::\w+\),?)+)\s*\)\s*\}", src):
-    pairs = re.findall(r"\(Token::(\w+), BinOpKind::(\w+)\)", m.group(3))
-    for t, o in pairs:
-        if t not in TOKENS: die("unknown token Token::" + t)
-        if o not in BINOPS: die("unknown operator BinOpKind::" + o)
-    rows[m.group(1)] = (m.group(2), pairs)
-expr_body = fn_body("expr")
-m = re.search(r"=\s*self\.(\w+)\(\);", expr_body)
-if not m: die("Parser::expr does not start with a ladder call")
-first = m.group(1)
+for name in dict.fromkeys(all_fns(PARSER)):
+    _, body = method(name)
+    if body[:3] == ["parse_binop", "!", "("] and close_of(body, 2) == len(body) - 1:
+        inner = [t for k, t in enumerate(body[3:-1]) if not (t == "," and k + 4 == len(body) - 1)]
+        if inner[:2] != ["self", "."] or inner[3] != ",": die("parse_binop! call in `%s`: first argument is not self.<next>" % name)
+        rest, pairs = inner[4:], []
+        while rest:
+            if rest[:4] != ["(", "Token", "::", rest[3]] or rest[4:7] != [",", "BinOpKind", "::"] or rest[8:9] != [")"]:
+                die("parse_binop! call in `%s`: operator pair of unknown shape" % name)
+            t, o = rest[3], rest[7]
+            if t not in TOKENS: die("unknown token Token::" + t)
+            if o not in BINOPS: die("unknown operator BinOpKind::" + o)
+            pairs.append((t, o))
+            rest = rest[9:]
+            if rest[:1] == [","]: rest = rest[1:]
+        if not pairs: die("parse_binop! call in `%s` without operators" % name)
+        rows[name] = (inner[2], pairs)
+_, expr_body = method("expr")
+n_expr = normalise(expr_body)
+if n_expr[:6] != ["let", "_v1", "=", "self", ".", n_expr[5]] or n_expr[6:9] != ["(", ")", ";"]:
+    die("Parser::expr does not start with a ladder call")
+first = n_expr[5]
 check_shape("Parser::expr", expr_body, """
     let expr = self.%s();
     if self.eat(&Token::Question) {
@@ -128,17 +406,27 @@ while cur in rows:
 if cur != "unop": die("the ladder ends in `%s`, expected `unop`" % cur)
 if len(seen) != len(rows): die("parse_binop! functions outside the call chain: %s" % sorted(set(rows) - seen))
 
-check_shape("Parser::unop", fn_body("unop"), """
+check_shape("Parser::unop", method("unop"), """
     if self.eat(&Token::Tilde) { let expr = self.unop(); Expr::UnOp { kind: UnOpKind::Not, expr: expr.into() } }
     else if self.eat(&Token::Minus) { let expr = self.unop(); Expr::UnOp { kind: UnOpKind::Neg, expr: expr.into() } }
     else if self.eat(&Token::Plus) { self.unop() } else { self.pow() }""", "unopBody")
-check_shape("Parser::pow", fn_body("pow"), """
+check_shape("Parser::pow", method("pow"), """
     let expr = self.primary();
     if self.eat(&Token::DoubleStar) {
         let rhs = self.unop();
         Expr::BinOp { kind: BinOpKind::Pow, lhs: expr.into(), rhs: rhs.into() }
     } else { expr }""", "powBody")
-check_shape("Parser::primary", cut_table(fn_body("primary")), """
+
+# --- the function-name table (inline or helper) and the rest of primary ----------------------
+prim, frows, fcatch, fvia = cut_table(method("primary")[1], "function-name table of Parser::primary", [])
+if not (fcatch[:1] and fcatch[0] in PANICS and fcatch[1:2] == ["!"]):
+    die("function-name table: the catch-all arm is not a panic (`%s`)" % " ".join(fcatch[:6]))
+funcs = []
+for n, v in frows:
+    if len(v) != 3 or v[:2] != ["UnOpKind", "::"] or v[2] not in UNOPS:
+        die("function-name table: arm \"%s\" => `%s` of unknown shape" % (n, " ".join(v)))
+    funcs.append((n, v[2]))
+check_shape("Parser::primary", prim, """
     if self.eat(&Token::LParen) {
         let expr = self.expr();
         self.expect(&Token::RParen);
@@ -148,48 +436,58 @@ check_shape("Parser::primary", cut_table(fn_body("primary")), """
     else {
         let s = self.next_ident().unwrap();
         if self.eat(&Token::LParen) {
-            let op = TABLE;
+            let op = TABLE(s);
             let expr = self.expr();
             self.expect(&Token::RParen);
             Expr::UnOp { kind: op, expr: expr.into() }
         } else { Expr::Ident(s) }
     }""", "primaryBody")
-check_shape("Parser::eat", fn_body("eat"), """
-    match self.lexer.peek() { Some(peek) if peek == tok => { self.lexer.next(); true } _ => false }""", "eat")
-check_shape("Parser::expect", fn_body("expect"), "assert!(self.eat(tok))", "expect (a failed expectation is a panic in every build profile)")
-check_shape("Parser::next_integer", fn_body("next_integer"), """
+
+check_shape("Parser::eat", method("eat"), [
+    "match self.lexer.peek() { Some(peek) if peek == tok => { self.lexer.next(); true } _ => false }",
+    "if self.lexer.peek() == Some(tok) { self.lexer.next(); true } else { false }",
+    "if matches!(self.lexer.peek(), Some(peek) if peek == tok) { self.lexer.next(); true } else { false }",
+    "if let Some(peek) = self.lexer.peek() { if peek == tok { self.lexer.next(); true } else { false } } else { false }",
+    "let hit = self.lexer.peek() == Some(tok); if hit { self.lexer.next(); } hit",
+], "eat", params=["tok"])
+check_shape("Parser::expect", method("expect"), "assert!(self.eat(tok))",
+            "expect (a failed expectation is a panic in every build profile)", params=["tok"])
+check_shape("Parser::next_integer", method("next_integer"), """
     if let Some(&Token::Integer(i)) = self.lexer.peek() { self.lexer.next(); Some(i) } else { None }""", "primaryBody (integer token)")
-check_shape("Parser::next_float", cut_table(fn_body("next_float")), """
+
+# --- the constant table (inline or helper) and the rest of next_float ------------------------
+nf_raw = method("next_float")[1]
+nf, crows, ccatch, cvia = cut_table(nf_raw, "constant table of Parser::next_float", ["?"] if string_match(nf_raw) < 0 else [])
+consts = []
+for n, v in crows:
+    if cvia != "inline":
+        if v[:2] != ["Some", "("] or v[-1] != ")": die("constant table: helper arm \"%s\" is not `Some(..)`" % n)
+        v = v[2:-1]
+    path = "".join(v)
+    ok = path in ("std::f64::consts::" + n, "core::f64::consts::" + n, "f64::consts::" + n) \
+        or (path == "consts::" + n and re.search(r"use (std|core)::f64::consts\b", src)) \
+        or (path == n and re.search(r"use (std|core)::f64::consts::(\{[^}]*\b%s\b[^}]*\}|%s\b)" % (n, n), src))
+    if not ok: die("constant %s bound to `%s`, expected std::f64::consts::%s" % (n, path, n))
+    consts.append(n)
+if ccatch != (["return", "None"] if cvia == "inline" else ["None"]):
+    die("constant table: the catch-all arm is `%s`" % " ".join(ccatch))
+check_shape("Parser::next_float", nf, """
     if let Some(&Token::Float(f)) = self.lexer.peek() { self.lexer.next(); Some(f) }
-    else if let Some(Token::Ident(s)) = self.lexer.peek() { let f = TABLE; self.lexer.next(); Some(f) }
+    else if let Some(Token::Ident(s)) = self.lexer.peek() { let f = TABLE(s); self.lexer.next(); Some(f) }
     else { None }""", "primaryBody (float token, constants)")
-check_shape("Parser::next_ident", fn_body("next_ident"), """
-    if let Some(Token::Ident(s)) = self.lexer.peek() { let s = s.to_string(); self.lexer.next(); Some(s) } else { None }""", "primaryBody (identifier token)")
-# `parse`: the whole text is one expression — a real assertion (not debug_assert!, not `let _ =`)
-m = re.search(r"pub fn parse\(s: &str\) -> Expr \{\n(.*?)\n\}\n", src, re.S)
-if not m: die("formula::parse not found")
-check_shape("formula::parse", m.group(1), """
-    debug!("S");
+check_shape("Parser::next_ident", method("next_ident"), [
+    "if let Some(Token::Ident(s)) = self.lexer.peek() { let s = s.to_string(); self.lexer.next(); Some(s) } else { None }",
+    "if let Some(Token::Ident(s)) = self.lexer.peek() { let s = String::from(s); self.lexer.next(); Some(s) } else { None }",
+], "primaryBody (identifier token)")
+
+# --- `parse`: the whole text is one expression — a real assertion in every build profile -------
+check_shape("formula::parse", find_fn("parse"), """
     let lexer = Lexer::new(s);
     let mut parser = Parser { lexer };
     let expr = parser.expr();
-    assert!(parser.lexer.peek().is_none(), "S", s);
-    expr""", "parseToks (end-of-input assertion in every build profile)")
+    assert!(parser.lexer.peek().is_none());
+    expr""", "parseToks (end-of-input assertion in every build profile)", params=["s"])
 
-# --- function names and constants ----------------------------------------------------------
-prim = fn_body("primary")
-m = re.search(r"let op = match s\.as_str\(\) \{(.*?)\n\s*other => panic!", prim, re.S)
-if not m: die("function-name match in Parser::primary")
-funcs = re.findall(r'"(\w+)"\s*=>\s*UnOpKind::(\w+),', m.group(1))
-if len(funcs) != len(re.findall(r"=>", m.group(1))): die("function-name arm of unknown shape")
-for n, o in funcs:
-    if o not in UNOPS: die("unknown operator UnOpKind::" + o)
-m = re.search(r"let f = match s\.as_str\(\) \{(.*?)_ => return None,", src, re.S)
-if not m: die("constant match in Parser::next_float")
-consts = re.findall(r'"(\w+)"\s*=>\s*std::f64::consts::(\w+),', m.group(1))
-if len(consts) != len(re.findall(r"=>", m.group(1))): die("constant arm of unknown shape")
-for n, c in consts:
-    if n != c: die("constant %s bound to std::f64::consts::%s" % (n, c))
 h = hashlib.sha1(src.encode()).hexdigest()[:16]
 L = ["/- GENERATED by tools/gen_formula_tables.py from genapi/src/formula.rs — do not edit.",
      "   Regenerated on every check run; Props/C05.lean proves the model's tables equal these. -/",
@@ -204,14 +502,14 @@ L = ["/- GENERATED by tools/gen_formula_tables.py from genapi/src/formula.rs —
      "",
      "def ladderRows : List Row := ladder.map (·.2)",
      "",
-     "/-- arms of the function-name `match` in `Parser::primary`, in source order -/",
+     "/-- arms of the function-name table used by `Parser::primary`, in source order -/",
      "def functions : List (String × UnOpKind) :=",
      "  [ " + ", ".join('("%s", .%s)' % (n, lower(o)) for n, o in funcs) + " ]",
      "",
      "/-- identifiers `next_float` turns into `std::f64::consts` values -/",
-     "def constants : List String := [" + ", ".join('"%s"' % n for n, _ in consts) + "]",
+     "def constants : List String := [" + ", ".join('"%s"' % n for n in consts) + "]",
      "",
      "end CamVerif.Gen.FormulaTables", ""]
 open(OUT, "w").write("\n".join(L))
 print("HASH genapi/src/formula.rs " + h)
-print("gen_formula_tables: %d ladder rows, %d functions, %d constants" % (len(ladder), len(funcs), len(consts)))
+print("gen_formula_tables: %d ladder rows, %d functions (%s), %d constants (%s)" % (len(ladder), len(funcs), fvia, len(consts), cvia))
